@@ -15,7 +15,7 @@ import (
 )
 
 var verifHarnesses = map[string]func(a []int){
-	"VerifToConfigOrder": func(a []int) { VerifToConfigOrder(a[0], a[1]) },
+	"VerifToConfigOrder": func(a []int) { VerifToConfigOrder(a[0], a[1], a[2]) },
 	"VerifReloadGate":    func(a []int) { VerifReloadGate(a[0]) },
 }
 
@@ -35,7 +35,12 @@ func vhI32(v int32) *int32 { return &v }
 // vhSnapshot builds a selector-free snapshot: 3 pools (two pinned to the same namespace), 3 L2
 // advertisements and 3 BGP advertisements naming different pool subsets, 2 nodes, 2 namespaces.
 // symKind selects which kind of object gets symbolic names (0 pools, 1 L2 advs, 2 BGP advs, 3 nodes).
-func vhSnapshot(symKind int) config.ClusterResources {
+// variant 0: a valid snapshot; variant 1: pool 2 is dual-stack and two BGP advertisements with
+// different local preferences differ in aggregation length for IPv4 only (a conflict: must be rejected
+// whatever the order); variant 2: pool 1's prefix lies inside pool 0's (must be rejected whatever the order).
+func vhSnapshot(symKind int) config.ClusterResources { return vhSnapshotV(symKind, 0) }
+
+func vhSnapshotV(symKind, variant int) config.ClusterResources {
 	pn := [3]string{"pool-a", "pool-b", "pool-c"}
 	ln := [3]string{"l2-a", "l2-b", "l2-c"}
 	bn := [3]string{"bgp-a", "bgp-b", "bgp-c"}
@@ -51,10 +56,17 @@ func vhSnapshot(symKind int) config.ClusterResources {
 		nn = vhNames3("node-")
 	}
 	var r config.ClusterResources
-	addrs := []string{"10.1.0.0/24", "10.2.0.0/24", "10.3.0.0/24"}
+	addrs := [][]string{{"10.1.0.0/24"}, {"10.2.0.0/24"}, {"10.3.0.0/24"}}
+	if variant == 1 {
+		addrs[2] = []string{"10.3.0.0/24", "fd00:3::/120"}
+	}
+	if variant == 2 {
+		addrs[0] = []string{"10.1.0.0/16"}
+		addrs[1] = []string{"10.1.2.0/24"}
+	}
 	for i := 0; i < 3; i++ {
 		p := metallbv1beta1.IPAddressPool{ObjectMeta: metav1.ObjectMeta{Name: pn[i], Namespace: "metallb-system"},
-			Spec: metallbv1beta1.IPAddressPoolSpec{Addresses: []string{addrs[i]}}}
+			Spec: metallbv1beta1.IPAddressPoolSpec{Addresses: addrs[i]}}
 		if i < 2 {
 			p.Spec.AllocateTo = &metallbv1beta1.ServiceAllocation{Priority: i + 1, Namespaces: []string{"tenant"}}
 		}
@@ -73,6 +85,10 @@ func vhSnapshot(symKind int) config.ClusterResources {
 	for i := 0; i < 3; i++ {
 		b := metallbv1beta1.BGPAdvertisement{ObjectMeta: metav1.ObjectMeta{Name: bn[i], Namespace: "metallb-system"},
 			Spec: metallbv1beta1.BGPAdvertisementSpec{AggregationLength: vhI32(int32(32 - i)), AggregationLengthV6: vhI32(int32(128 - i)), LocalPref: uint32(100 + i)}}
+		if variant == 1 {
+			// same IPv6 aggregate, different IPv4 aggregate, different local preference
+			b.Spec.AggregationLengthV6 = vhI32(128)
+		}
 		if i > 0 {
 			b.Spec.IPAddressPools = []string{pn[0], pn[i]}
 		}
@@ -97,8 +113,8 @@ func vhPermute3[T any](in []T, perm int) []T {
 // VerifToConfigOrder (C18): the configuration computed from a snapshot does not depend on the order in
 // which the API server lists the objects, nor on map iteration order, and neither does acceptance.
 // symKind: which kind has symbolic names; mapOrder: map iteration mode for the second computation.
-func VerifToConfigOrder(symKind, mapOrder int) {
-	res := vhSnapshot(symKind)
+func VerifToConfigOrder(symKind, mapOrder, variant int) {
+	res := vhSnapshotV(symKind, variant)
 	a, errA := toConfig(res, config.DontValidate)
 	// the same snapshot listed in another order (every kind permuted by the same symbolic permutation)
 	perm := 1 + vr.Choose(5)
